@@ -221,9 +221,8 @@ def run_paths(st, drv, tid, paths, label):
             else:
                 res = refpath.resolve(after, path, 'sec')
                 ok = res != NOTFOUND
-                if ok and not res[3].decl.has('M'):
-                    st.unspec += 1
-                    continue       # removing the instance of a single section: not specified
+                # a path that ends in a single section removes its one instance, exactly as the single-level remover does on the
+                # option reached by the walk (cfg_opt_rmnsec(opt, 0))
                 if ok:
                     res[3].values.remove(res[2])
                 want_rc = 'r rmsec %d' % (0 if ok else -1)
